@@ -94,7 +94,7 @@ struct C02Monitor {
     suspended_since_pub: BTreeSet<(String, String)>,
     /// issuance monitor: (issuer, ski, serial) of child certificates seen in
     /// the issuers' own object stores, with their resources
-    issued_seen: BTreeMap<(String, String, String), ResourceSet>,
+    issued_seen: BTreeMap<(String, String, String), (ResourceSet, String)>,
     /// (issuer, child) -> entitlement at the previous observation
     prev_ent: BTreeMap<(String, String), ResourceSet>,
     /// issuer -> (key id -> certified resources) at the previous observation
@@ -106,10 +106,10 @@ impl C02Monitor {
     /// child certificate that appears in the issuer's object store (i.e.
     /// was issued by the single operation or task since the previous
     /// observation) carries exactly entitlement x issuing key's resources,
-    /// taking either the value before or after that step for both. When the
-    /// issuing key's own certificate changed in that step (or the issuing
-    /// key is a different one: activation), "the part both still hold" of
-    /// the replaced certificate is accepted as well.
+    /// taking either the value before or after that step for both; or it is
+    /// a re-issue of the key's previous certificate cut down to what the
+    /// issuing key holds, which must stay within the entitlement unless the
+    /// issuing key's own certificate changed in that step.
     fn check_issuance(&mut self, w: &World, r: &mut Report) -> Vec<Issue> {
         let mut issues = vec![];
         let cas = w.ca_handles();
@@ -136,7 +136,7 @@ impl C02Monitor {
                 let child = keys_of.iter()
                     .find(|(_, ks)| ks.contains(&c.ski)).map(|(n, _)| n.clone());
                 let Some(child) = child else {
-                    self.issued_seen.insert(id, c.resources.clone());
+                    self.issued_seen.insert(id, (c.resources.clone(), c.aki.clone()));
                     continue
                 };
                 r.eval();
@@ -156,15 +156,33 @@ impl C02Monitor {
                 let mut ok = es.iter().any(|e| rs_.iter().any(|x| {
                     e.intersection(x) == c.resources
                 }));
-                if !ok && issuer_changed {
-                    // the part the replaced certificate and the issuer's
-                    // new certificate both hold
-                    let prev_certs: Vec<&ResourceSet> = self.issued_seen.iter()
+                if !ok {
+                    // a RE-issue of the certificate the key had before
+                    // (issuer shrink, key activation, un-suspension) carries
+                    // the part that certificate and the issuing key's
+                    // certificate both hold. That may be less than the
+                    // present entitlement (the child catches up at its next
+                    // synchronisation); it may exceed the present
+                    // entitlement only when the issuer's own certificate
+                    // changed in this step - the case for which the
+                    // statement prescribes exactly this content - or when
+                    // the certificates move to the activated key: in both
+                    // cases that content was published all along. A
+                    // certificate that was NOT published (suspended child)
+                    // is a fresh issuance and must respect the entitlement.
+                    let prev_certs: Vec<&(ResourceSet, String)> = self.issued_seen.iter()
                         .filter(|((i, ski, _), _)| i == issuer && *ski == c.ski)
                         .map(|(_, res)| res).collect();
-                    ok = prev_certs.iter().any(|p| rs_.iter().any(|x| {
-                        p.intersection(x) == c.resources
+                    let is_reissue = prev_certs.iter().any(|p| rs_.iter().any(|x| {
+                        p.0.intersection(x) == c.resources
                     }));
+                    // the issuing key is another one than before: the
+                    // certificates move to the activated key as they are
+                    let key_switch = !prev_certs.is_empty()
+                        && prev_certs.iter().all(|p| p.1 != c.aki);
+                    let within = es.iter().any(|e| e.contains(&c.resources));
+                    ok = is_reissue && (within || issuer_changed || key_switch);
+                    if ok { r.count("reissues_of_previous_content", 1) }
                 }
                 if !ok && (es.is_empty() || rs_.is_empty()) { ok = true }
                 if !ok {
@@ -182,7 +200,7 @@ impl C02Monitor {
                     r.nontrivial(format!("issued|{}|{}", es.first()
                         .map(|e| e.to_string()).unwrap_or_default(), c.resources));
                 }
-                self.issued_seen.insert(id, c.resources.clone());
+                self.issued_seen.insert(id, (c.resources.clone(), c.aki.clone()));
             }
             for (ch, e) in ent_now {
                 self.prev_ent.insert((issuer.clone(), ch), e);
